@@ -54,6 +54,10 @@ def gen_cases(tier):
             yield ('fmt', v, kind, tier)
     for v in ('M1', 'M2', 1):
         yield ('emptyrow', v)
+    # the same documents by file name (extension in three letter cases) and through the command line tool
+    for v in ('M3', 1, 7):
+        for kind in ('svg', 'eps', 'pdf', 'tex'):
+            yield ('routes', v, kind)
     for i in range(0, len(Co.NAMED), 15):
         yield ('names', i)
     from .c01 import deviations
@@ -122,8 +126,41 @@ def find_special(v):
     return found
 
 
-def one(v, kind, kw, acc, content=None):
-    case = ('one', v, kind, kw) if content is None else ('onec', v, kind, kw, content)
+def via_route(qr, v, kind, kw, route):
+    """the document through a file name (extension in any letter case) or the command line tool instead of a stream"""
+    import contextlib
+    import os
+    import shutil
+    import tempfile
+    tmp = tempfile.mkdtemp(prefix='verif-c10-')
+    try:
+        how, cs = route.split(':')
+        ext = {'lower': kind, 'upper': kind.upper(), 'mixed': kind.capitalize()}[cs]
+        path = os.path.join(tmp, 'Out.' + ext)
+        if how == 'path':
+            qr.save(path, **kw)
+        else:
+            from segno import cli
+            lvl = T.levels_of(v)[0]
+            argv = ['--version', str(v), '--no-error-boost', '--pattern', str(qr.mask)] + ([] if lvl is None else ['--error', lvl])
+            for k, val in kw.items():
+                argv += [{'scale': '--scale', 'border': '--border', 'dark': '--dark', 'light': '--light', 'unit': '--unit'}[k], 'transparent' if val is None else str(val)]
+            with contextlib.redirect_stdout(io.StringIO()), contextlib.redirect_stderr(io.StringIO()):
+                rc = cli.main(argv + ['--output', path, ROUTE_CONTENT[v]])
+            if rc != 0:
+                raise ValueError('command line tool returned %r' % rc)
+        with open(path, 'rb') as f:
+            data = f.read()
+        return data if kind in ('svg', 'pdf') else data.decode('utf-8')
+    finally:
+        shutil.rmtree(tmp, ignore_errors=True)
+
+
+ROUTE_CONTENT = {}
+
+
+def one(v, kind, kw, acc, content=None, route=None):
+    case = (('one', v, kind, kw) if content is None else ('onec', v, kind, kw, content)) if route is None else ('oner', v, kind, kw, route)
     qr = symbol(v) if content is None else segno.make(content[0], version=v, error=T.levels_of(v)[0], mask=content[1], boost_error=False)
     size = T.size_of(v)
     m = qr.matrix
@@ -133,7 +170,10 @@ def one(v, kind, kw, acc, content=None):
     cells = size + 2 * bb
     out = io.BytesIO() if kind in ('svg', 'pdf') else io.StringIO()
     try:
-        qr.save(out, kind=kind, **kw)
+        if route is None:
+            qr.save(out, kind=kind, **kw)
+        else:
+            routed = via_route(qr, v, kind, kw, route)
     except ValueError as e:
         # documented exclusion: unit together with omitsize
         if kind == 'svg' and kw.get('unit') and kw.get('omitsize'):
@@ -146,7 +186,7 @@ def one(v, kind, kw, acc, content=None):
         acc.eval(case, nontrivial=False, outcome='exc:' + C.exc_name(e))
         acc.violation('exception/%s/%s' % (kind, C.exc_name(e)), 'save(kind=%r, **%r) raised %s: %s' % (kind, kw, C.exc_name(e), str(e)[:80]), case)
         return
-    data = out.getvalue()
+    data = out.getvalue() if route is None else routed
     fam = '%s/%s' % (kind, 'scale<1' if scale < 1 else ('fractional' if scale != int(scale) else 'int'))
     try:
         if kind == 'svg':
@@ -328,6 +368,23 @@ def run_case(case, acc):
             for fmt in ('svg', 'eps', 'pdf'):
                 one('M1', fmt, {'dark': nm, 'light': '#010203'}, acc)
                 one('M1', fmt, {'dark': '#fdfcfb', 'light': nm.upper(), 'border': 0}, acc)
+    elif kind == 'routes':
+        v, fmt = case[1], case[2]
+        lvl = T.levels_of(v)[0]
+        ROUTE_CONTENT[v] = C.content_of('numeric', max(1, C.max_count('numeric', v, lvl) // 2), 2)
+        variants = [{}, {'scale': 2.5, 'border': 1}, {'scale': 3, 'border': 0, 'dark': '#336699'}, {'scale': 0.5}]
+        if fmt != 'tex':
+            variants += [{'dark': 'darkblue', 'light': '#eee'}, {'scale': 2, 'light': 'yellow'}]
+        else:
+            variants += [{'unit': 'mm'}, {'dark': 'blue', 'scale': 2}]
+        for kw in variants:
+            for r in ('path:lower', 'path:upper', 'path:mixed', 'cli:lower', 'cli:upper'):
+                one(v, fmt, dict(kw), acc, route=r)
+                acc.count('route_documents')
+    elif kind == 'oner':
+        v = case[1]
+        ROUTE_CONTENT[v] = C.content_of('numeric', max(1, C.max_count('numeric', v, T.levels_of(v)[0]) // 2), 2)
+        one(v, case[2], dict(case[3]), acc, route=case[4])
     elif kind == 'emptyrow':
         v = case[1]
         found = find_special(v)
